@@ -86,6 +86,16 @@ def _domain(w, d, acc, limits):
     elif tag == "name":
         for v in limits.get("names", (None,) + NAMES):
             yield lit(v)
+    elif tag == "clonable":
+        yield from _domain(w, limits.get("clone_kinds", "NLD"), acc, limits)
+    elif tag == "elem":
+        yield from _domain(w, limits.get("elem_kinds", FIRST), acc, limits)
+    elif tag == "count":
+        for v in limits.get("counts", (None, 1, 2)):
+            yield lit(v)
+    elif tag == "key":
+        for v in limits.get("keys", (".NAME", "EDIF.identifier", "k")):
+            yield lit(v)
     elif tag == "pos":
         for v in limits.get("positions", (None, 0)):
             yield lit(v)
@@ -168,6 +178,18 @@ def _delitem(o, k):
     del o[k]
 
 
+def _clone_marked(o):
+    """o.clone(), with every container of the copy tagged so findings on clones are told apart."""
+    c = o.clone()
+    stack = [c]
+    while stack:
+        x = stack.pop()
+        x.__dict__["_vclone"] = True
+        for attr in ("_libraries", "_definitions"):
+            stack.extend(getattr(x, attr, ()))
+    return c
+
+
 NAMES = ("a", "A", "b")
 FIRST = "NLDPCX"
 
@@ -210,14 +232,14 @@ def build_ops():
     _op("library.remove_definitions_from.set", ["L", ("subsets", "D", 2, "set")], lambda l, ds: l.remove_definitions_from(ds), ("_definitions", "_library"))
     _op("library.definitions=", ["L", ("reorder", "definitions", "D")], _setattr("definitions"), ("_definitions",))
     # definition: ports
-    _op("definition.create_port", ["D", nm, ("lit", (None, 1, 2))], lambda d, name, pins: d.create_port(name=name, pins=pins), ("_ports", "_definition", "_pins"))
+    _op("definition.create_port", ["D", nm, ("count",)], lambda d, name, pins: d.create_port(name=name, pins=pins), ("_ports", "_definition", "_pins"))
     _op("definition.add_port", ["D", "P", ("pos",)], lambda d, p, pos: d.add_port(p, pos), ("_ports", "_definition", "_pins"))
     _op("definition.remove_port", ["D", "P"], lambda d, p: d.remove_port(p), ("_ports", "_definition", "_pins", "_wire"))
     _op("definition.remove_ports_from", ["D", ("subsets", "P", 2, "list")], lambda d, ps: d.remove_ports_from(ps), ("_ports", "_definition", "_pins", "_wire"))
     _op("definition.remove_ports_from.set", ["D", ("subsets", "P", 2, "set")], lambda d, ps: d.remove_ports_from(ps), ("_ports", "_definition", "_pins", "_wire"))
     _op("definition.ports=", ["D", ("reorder", "ports", "P")], _setattr("ports"), ("_ports",))
     # definition: cables
-    _op("definition.create_cable", ["D", nm, ("lit", (None, 1, 2))], lambda d, name, wires: d.create_cable(name=name, wires=wires), ("_cables", "_definition", "_wires"))
+    _op("definition.create_cable", ["D", nm, ("count",)], lambda d, name, wires: d.create_cable(name=name, wires=wires), ("_cables", "_definition", "_wires"))
     _op("definition.add_cable", ["D", "C", ("pos",)], lambda d, c, pos: d.add_cable(c, pos), ("_cables", "_definition"))
     _op("definition.remove_cable", ["D", "C"], lambda d, c: d.remove_cable(c), ("_cables", "_definition"))
     _op("definition.remove_cables_from", ["D", ("subsets", "C", 2, "list")], lambda d, cs: d.remove_cables_from(cs), ("_cables", "_definition"))
@@ -263,15 +285,15 @@ def build_ops():
     _op("instance.reference=None", ["X"], lambda x: setattr(x, "reference", None), ("_reference", "_references", "_pins", "_wire"))
     _op("instance.del_reference", ["X"], _delattr("reference"), ("_reference", "_references", "_pins", "_wire"))
     # element data
-    keys = ("lit", (".NAME", "EDIF.identifier", "k"))
+    keys = ("key",)
     vals = ("lit", NAMES + ("1x",))
-    _op("element.name=", [FIRST, ("lit", NAMES + (None,))], _setattr("name"), ("_data",))
-    _op("element.del_name", [FIRST], _delattr("name"), ("_data",))
-    _op("element.setitem", [FIRST, keys, vals], _setitem, ("_data",))
-    _op("element.delitem", [FIRST, keys], _delitem, ("_data",))
-    _op("element.pop", [FIRST, keys], lambda o, k: o.pop(k), ("_data",))
+    _op("element.name=", [("elem",), ("lit", NAMES + (None,))], _setattr("name"), ("_data",))
+    _op("element.del_name", [("elem",)], _delattr("name"), ("_data",))
+    _op("element.setitem", [("elem",), keys, vals], _setitem, ("_data",))
+    _op("element.delitem", [("elem",), keys], _delitem, ("_data",))
+    _op("element.pop", [("elem",), keys], lambda o, k: o.pop(k), ("_data",))
     # clone (used by C10/C07 tails)
-    _op("clone", ["NLD"], lambda o: o.clone())
+    _op("clone", [("clonable",)], _clone_marked)
     return OPS
 
 
